@@ -1264,6 +1264,6 @@ func main() {
 		Run:         run,
 		MinEvals:    5000,
 		MinDistinct: 150,
-		Require:     []string{"blocks_applied", "blocks_reverted", "live_elements_accepted", "non_members_rejected"},
+		Require:     []string{"v1_window_ids_replaced_by_a_non_ancestor", "blocks_applied", "blocks_reverted", "live_elements_accepted", "non_members_rejected"},
 	})
 }
